@@ -5726,13 +5726,14 @@ class Frame(ContainerOperand):
                         key = outer + target
                     # cannot allocate array as do not know dtype until after fill_value
                     values = []
+                    dtype = dtype_src_col
                     for group, target_map in group_to_target_map.items():
                         if target in target_map:
                             row_idx = target_map[target]
-                            dtype = dtype_src_col
                             values.append(values_src._extract(row_idx, col_idx))
                         else:
                             values.append(fill_value)
+                            # once a fill is used in any group the column must hold it
                             dtype = resolve_dtype(dtype_src_col, dtype_fill)
 
                     array = np.array(values, dtype=dtype)
